@@ -147,7 +147,13 @@ static std::string query_all(const SU_vector& op, int t, int r, int first = -1) 
   double x = 1.0 + 0.37 * ((t + 2 * r) % 5);
   if (first >= 0) {   // let a chosen entry point be the thread's very first library activity
     std::vector<bool> av(3); double z = 0;
-    switch (first % 5) {
+    switch (first % 9) {
+      case 5: { gsl_matrix_complex* A = gsl_matrix_complex_calloc(3, 3); gsl_matrix_complex* E = gsl_matrix_complex_alloc(3, 3);
+                gsl_matrix_complex_set(A, 0, 1, gsl_complex_rect(0.3, 0.1)); gsl_matrix_complex_set(A, 1, 0, gsl_complex_rect(-0.3, 0.1)); gsl_matrix_complex_set(A, 2, 0, gsl_complex_rect(0.2, 0));
+                math_detail::matrix_exponential(E, A); z = GSL_REAL(gsl_matrix_complex_get(E, 0, 0)); gsl_matrix_complex_free(A); gsl_matrix_complex_free(E); } break;
+      case 6: { SU_vector p = SU_vector::PosProjector(4, 2); z = p[0]; } break;
+      case 7: { auto es = op.GetEigenSystem(true); z = gsl_vector_get(es.first.get(), 0); } break;
+      case 8: { z = op * op; SU_vector c = iCommutator(op, op); z += c[1]; } break;
       case 0: z = shared->GetExpectationValueD(op, 0, x); break;
       case 1: z = shared->GetExpectationValueD(op, 0, x, 1e9, av); break;
       case 2: z = shared->GetExpectationValue(op, 0, 1); break;
@@ -263,13 +269,13 @@ int main(int argc, char** argv) {
         for (int r = 0; r < rounds; r++) { phase_a(t, r, n, seed, pool, res[t]); phase_b(t, r, n, pool, res[t]); }
       });
     // one more worker whose ONLY library activity is const queries on the shared solver (operators built by main)
-    for (int first = 0; first < 5; first++) {    // five short-lived workers, each starting with a different entry point
+    for (int first = 0; first < 9; first++) {    // short-lived workers, each starting with a different entry point
       std::thread qonly([&, first] {
         my_tid = n + 1;
         for (int r = 0; r < rounds * 8; r++) { std::string q = query_all(*qop, n, r, r == 0 ? first : -1); if (first == 0) qres.r.push_back(q); }
       });
       qonly.join();
-      if (first < 4 && tracing) {
+      if (first < 8 && tracing) {
         std::lock_guard<std::mutex> g(logm);
         std::string left;
         for (int id = 1; id <= MAXB; id++) if (used[id] && cached_by[id] == n + 1) left += (left.empty() ? "" : ",") + std::to_string(id);
